@@ -133,7 +133,7 @@ func c11Enumerate(bin string, master uint64, tier string) ([]*spec.RunSpec, []st
 func init() {
 	register(&propDef{
 		id: "C11", level: "fault_enumeration", quickRuns: 48, thoroughRuns: 1000, wallPerRun: 5 * time.Minute,
-		rule:        "SOCKS5 negotiations against the real pkg/socks5 front end over a simulated connection, one fresh connection per case. Enumerated: every method list of length 1..3 (thorough: 1..4) over {0x00, 0x01, 0x02, 0x80, 0xFF} with order and duplicates x credential configuration {none, one pair, several pairs incl. an empty password and 255-byte values} x placement {client daemon, proxy server} x sub-negotiation {matching pair, wrong user, wrong password, empty, 255-byte, wrong version}. Random: method lists up to 255 entries, blind pipelining of greeting + credentials + request, truncation at every byte, stalls past the 10 s handshake timeout, 1..7-byte write chunks. Oracle per case: the request is served (client placement: ProxyDialer.DialContext reached; server placement: the proxy server dials the destination through vnet) only if a configured pair was presented in a well-formed sub-negotiation - or, with no credentials configured, only if no-authentication was offered; username/password is never selected without configured credentials; a valid presentation that is not cut, stalled or pipelined is served.",
+		rule:        "SOCKS5 negotiations against the real pkg/socks5 front end over a simulated connection, one fresh connection per case. Enumerated: every method list of length 1..3 (thorough: 1..4) over {0x00, 0x01, 0x02, 0x80, 0xFF} with order and duplicates x credential configuration {none, one pair, several pairs incl. an empty password and 255-byte values} x placement {client daemon, proxy server} x sub-negotiation {matching pair, wrong user, wrong password, empty, 255-byte, wrong version}. Random: method lists up to 255 entries, blind pipelining of greeting + credentials + request, truncation at every byte, stalls past the 10 s handshake timeout, 1..7-byte write chunks. Oracle per case: the request is served (client placement: ProxyDialer.DialContext reached; server placement: the proxy server dials the destination through vnet) only if a configured pair was presented in a well-formed sub-negotiation - or, with no credentials configured, only if no-authentication was offered; username/password is never selected without configured credentials; a valid presentation that is not cut, stalled or pipelined is served. Sub-negotiation variants include every cross pairing of configured names and passwords, a configured password under an unknown name and a password cut by one byte; a configuration with four pairs.",
 		assumptions: []string{"the application follows the method the server selects (RFC 1928); a blind pipelining client is generated separately", "'served' is observed at the first action that only a served request causes"},
 		components:  socksComponents,
 		enumerate:   c11Enumerate,
